@@ -1,5 +1,6 @@
 import Postcard.Props.C04
 import Postcard.Props.C04Scratch
+import Postcard.Props.C01EnumAt
 -- property theorems of C04: every one must depend only on propext / Classical.choice / Quot.sound
 #print axioms Postcard.dec_total
 #print axioms Postcard.dec_no_foreign_error
@@ -25,3 +26,5 @@ import Postcard.Props.C04Scratch
 #print axioms Postcard.scratch_history_safe
 #print axioms Postcard.take_refused_unchanged
 #print axioms Postcard.take_read_failed_keeps_slot
+#print axioms Postcard.decEnumAt_ok_iff
+#print axioms Postcard.decEnumAt_total
